@@ -329,10 +329,55 @@ def reuse_problems():
     return out
 
 
+def lookup_problems():
+    """Blocks that supply nothing share the scope-state object of the code around them: what happens inside them (lookups
+    with a caller default, lookups that default-construct) must not change what the surrounding code sees afterwards."""
+    out = []
+
+    class Probe(State):
+        v: int = 0
+
+    class Probe2(State):
+        v: int = 0
+
+    async def main():
+        async with ctx.scope("outer", A(v=1)):
+            seen = {}
+
+            def view():
+                return (ctx.state(A).v, ctx.state(Probe).v, ctx.state(Probe2).v, ctx.state(Probe, default=Probe(v=-1)).v)
+            before = view()
+            async with ctx.scope("stateless"):
+                seen["async"] = ctx.state(Probe, default=Probe(v=123)).v
+            with ctx.scope("stateless-sync"):
+                ctx.state(Probe2, default=Probe2(v=7))
+            with ctx.updated():
+                ctx.state(Probe, default=Probe(v=5))
+
+            async def child():
+                ctx.state(Probe, default=Probe(v=9))
+                ctx.state(Probe2)
+            await ctx.spawn(child)
+            try:
+                with ctx.scope("stateless-failing"):
+                    ctx.state(Probe, default=Probe(v=11))
+                    raise BodyError("body")
+            except BodyError:
+                pass
+            after = view()
+            if seen["async"] != 123:
+                out.append(f"ctx.state(Probe, default=Probe(v=123)) for a type nobody supplies returned v={seen['async']}")
+            if before != after:
+                out.append(f"lookups made inside blocks that supply no state changed what the surrounding code sees: "
+                           f"(A, Probe, Probe2, Probe-with-default) was {before}, is {after} afterwards")
+    asyncio.run(main())
+    return out
+
+
 def main(check):
     import json
     sys.stdin.read()
-    rp = reuse_problems()
+    rp = reuse_problems() or lookup_problems()
     if rp:
         print(json.dumps(dict(reproduced=True, detail=dict(scenario="scope object entered a second time", problem=rp[0]), cases_tried=1)))
         return
